@@ -1,1 +1,397 @@
 """Remaining generated tables (registered into translate.TABLES on import)."""
+import ast
+import inspect
+import keyword
+import sys
+import unicodedata
+
+from translate import (
+    ShapeNotFound, find_func, register, src_ast, str_seq,
+)
+from coqemit import cq_str, cq_list, cq_bool, cq_json, cq_option, cq_N
+
+
+def _cls_name(c):
+    return c.__name__
+
+
+# --------------------------------------------------------------------------
+def gen_constants():
+    from statham.schema import constants as C
+    comp = list(C.COMPOSITION_KEYWORDS)
+    unsup = sorted(C.UNSUPPORTED_SCHEMA_KEYWORDS)
+    if not all(isinstance(x, str) for x in comp + unsup):
+        raise ShapeNotFound("constants are not strings")
+    ordered = isinstance(C.COMPOSITION_KEYWORDS, (tuple, list))
+    return (
+        "Definition composition_keywords : list str := %s.\n"
+        "Definition composition_keywords_ordered : bool := %s.\n"
+        "Definition unsupported_keywords : list str := %s.\n"
+        % (cq_list([cq_str(x) for x in comp]), cq_bool(ordered), cq_list([cq_str(x) for x in unsup]))
+    )
+
+
+def sent_constants():
+    return ("Definition composition_keywords : list str := [].\n"
+            "Definition composition_keywords_ordered : bool := false.\n"
+            "Definition unsupported_keywords : list str := [].\n")
+
+
+register("Gen_constants", gen_constants, sent_constants)
+
+
+# --------------------------------------------------------------------------
+def _sig_rows(fn, skip_first=True):
+    from statham.schema.constants import NotPassed
+    params = list(inspect.signature(fn).parameters.values())
+    if skip_first:
+        params = params[1:]
+    rows = []
+    for p in params:
+        kind = {p.POSITIONAL_OR_KEYWORD: "PosOrKw", p.VAR_POSITIONAL: "VarPos", p.KEYWORD_ONLY: "KwOnly",
+                p.POSITIONAL_ONLY: "PosOrKw", p.VAR_KEYWORD: "VarKw"}[p.kind]
+        if p.default is inspect.Parameter.empty:
+            d = "SDRequired"
+        elif isinstance(p.default, NotPassed):
+            d = "SDNotPassed"
+        else:
+            d = "(SDJson %s)" % cq_json(p.default)
+        holds_elem = any(t in str(p.annotation) for t in ("Element", "_Property"))
+        rows.append("(%s, %s, %s, %s)" % (cq_str(p.name), kind, d, cq_bool(holds_elem)))
+    return cq_list(rows)
+
+
+def gen_signatures():
+    from statham.schema.elements import (
+        Element, String, Integer, Number, Boolean, Null, Array, Not, AnyOf, OneOf, AllOf, Nothing,
+    )
+    from statham.schema.elements.meta import ObjectMeta
+    from statham.schema.property import _Property
+    out = []
+    for cls in (Element, String, Integer, Number, Boolean, Null, Array, Not, AnyOf, OneOf, AllOf, Nothing):
+        out.append("Definition sig_%s : list sigrow := %s.\n" % (cls.__name__, _sig_rows(cls.__init__)))
+    # parameters of ObjectMeta.__new__ after (mcs, name, bases, classdict)
+    params = list(inspect.signature(ObjectMeta.__new__).parameters.values())
+    kwonly = [p for p in params if p.kind == p.KEYWORD_ONLY]
+    if [p.name for p in params if p.kind != p.KEYWORD_ONLY] != ["mcs", "name", "bases", "classdict"]:
+        raise ShapeNotFound("ObjectMeta.__new__ positional parameters")
+
+    class _F:  # reuse _sig_rows on a synthetic signature
+        pass
+    sig = inspect.Signature([inspect.Parameter("self", inspect.Parameter.POSITIONAL_OR_KEYWORD)] + kwonly)
+
+    def fake():
+        pass
+    fake.__signature__ = sig
+    out.append("Definition sig_ObjectMeta : list sigrow := %s.\n" % _sig_rows(fake))
+    out.append("Definition sig_Property : list sigrow := %s.\n" % _sig_rows(_Property.__init__))
+    # the filter used by the parser includes the bound `self` name
+    fparams = [p.name for p in inspect.signature(Element.__init__).parameters.values()]
+    out.append("Definition filter_includes_self : bool := %s.\n" % cq_bool("self" in fparams))
+    return "From Statham.Model Require Import Tables.\n" + "".join(out)
+
+
+def sent_signatures():
+    names = ["Element", "String", "Integer", "Number", "Boolean", "Null", "Array", "Not", "AnyOf", "OneOf",
+             "AllOf", "Nothing", "ObjectMeta", "Property"]
+    return ("From Statham.Model Require Import Tables.\n" +
+            "".join("Definition sig_%s : list sigrow := [].\n" % n for n in names) +
+            "Definition filter_includes_self : bool := true.\n")
+
+
+register("Gen_signatures", gen_signatures, sent_signatures)
+
+
+# --------------------------------------------------------------------------
+def gen_type_mapping():
+    from statham.schema import parser as P
+    from statham.serializers import json as J
+    rows = ["(%s, %s)" % (cq_str(k), cq_str(v.__name__)) for k, v in P._TYPE_MAPPING.items()]
+    rows_j = ["(%s, %s)" % (cq_str(k.__name__), cq_str(v)) for k, v in J._TYPE_MAPPING.items()]
+    return ("Definition parser_type_mapping : list (str * str) := %s.\n"
+            "Definition json_type_mapping : list (str * str) := %s.\n" % (cq_list(rows), cq_list(rows_j)))
+
+
+register("Gen_type_mapping", gen_type_mapping,
+         lambda: "Definition parser_type_mapping : list (str * str) := [].\nDefinition json_type_mapping : list (str * str) := [].\n")
+
+
+# --------------------------------------------------------------------------
+OPS = {ast.Lt: "OpLt", ast.LtE: "OpLe", ast.Gt: "OpGt", ast.GtE: "OpGe"}
+NEG = {"OpLt": "OpGe", "OpLe": "OpGt", "OpGt": "OpLe", "OpGe": "OpLt"}
+FLIP = {"OpLt": "OpGt", "OpLe": "OpGe", "OpGt": "OpLt", "OpGe": "OpLe"}
+
+
+def _param_kw(node):
+    """self.params["kw"] -> kw"""
+    if (isinstance(node, ast.Subscript) and isinstance(node.value, ast.Attribute) and node.value.attr == "params"):
+        sl = node.slice
+        if isinstance(sl, ast.Constant) and isinstance(sl.value, str):
+            return sl.value
+    return None
+
+
+def _subject(node, argname):
+    if isinstance(node, ast.Name) and node.id == argname:
+        return "false"
+    if (isinstance(node, ast.Call) and isinstance(node.func, ast.Name) and node.func.id == "len"
+            and len(node.args) == 1 and isinstance(node.args[0], ast.Name) and node.args[0].id == argname):
+        return "true"
+    return None
+
+
+def _threshold_of(cls):
+    """If cls._validate is `if <cmp>: raise ValidationError` return (kw, is_len, op) else None."""
+    import textwrap
+    try:
+        fn = ast.parse(textwrap.dedent(inspect.getsource(cls._validate))).body[0]
+    except (OSError, TypeError, SyntaxError):
+        return None
+    body = [n for n in fn.body if not (isinstance(n, ast.Expr) and isinstance(n.value, ast.Constant))]
+    if len(body) != 1 or not isinstance(body[0], ast.If) or body[0].orelse:
+        return None
+    iff = body[0]
+    if len(iff.body) != 1 or not isinstance(iff.body[0], ast.Raise):
+        return None
+    argname = fn.args.args[1].arg
+    test = iff.test
+    neg = False
+    while isinstance(test, ast.UnaryOp) and isinstance(test.op, ast.Not):
+        neg = not neg
+        test = test.operand
+    if not (isinstance(test, ast.Compare) and len(test.ops) == 1 and type(test.ops[0]) in OPS):
+        return None
+    op = OPS[type(test.ops[0])]
+    left, right = test.left, test.comparators[0]
+    kw, subj = _param_kw(right), _subject(left, argname)
+    if kw is None or subj is None:
+        kw, subj = _param_kw(left), _subject(right, argname)
+        op = FLIP[op]
+    if kw is None or subj is None:
+        return None
+    if neg:
+        op = NEG[op]
+    return kw, subj, op
+
+
+def gen_validators():
+    from statham.schema import validation as V
+    from statham.schema.validation.base import Validator, InstanceOf, NoMatch
+    from statham.schema.elements.meta import ObjectMeta
+    subs = sorted(V._all_subclasses(Validator), key=lambda c: c.__name__)
+    rows, thr = [], []
+    for c in subs:
+        types = [t.__name__ for t in (c.types or ())]
+        rows.append("(%s, %s, %s)" % (cq_str(c.__name__), cq_list([cq_str(t) for t in types]),
+                                      cq_list([cq_str(k) for k in c.keywords])))
+        t = _threshold_of(c)
+        if t:
+            thr.append("(%s, %s, %s)" % (cq_str(t[0]), t[1], t[2]))
+    # the classes get_validators skips: names compared in an `in (...)` test inside get_validators
+    tree = src_ast("statham/schema/validation/__init__.py")
+    fn = find_func(tree, "get_validators")
+    skipped = None
+    for node in ast.walk(fn):
+        if isinstance(node, ast.Compare) and len(node.ops) == 1 and isinstance(node.ops[0], ast.In):
+            c = node.comparators[0]
+            if isinstance(c, (ast.Tuple, ast.List, ast.Set)) and all(isinstance(e, ast.Name) for e in c.elts):
+                skipped = sorted(e.id for e in c.elts)
+    if skipped is None:
+        raise ShapeNotFound("skip set in get_validators")
+    # ObjectMeta.validators: the list display of calls/attributes in the property body
+    mtree = src_ast("statham/schema/elements/meta.py")
+    objv = None
+    for node in ast.walk(mtree):
+        if isinstance(node, ast.FunctionDef) and node.name == "validators":
+            for sub in ast.walk(node):
+                if isinstance(sub, ast.List) and len(sub.elts) >= 5:
+                    names = []
+                    for e in sub.elts:
+                        if isinstance(e, ast.Call):
+                            f = e.func
+                            if isinstance(f, ast.Attribute) and f.attr == "from_element" and isinstance(f.value, ast.Name):
+                                names.append(f.value.id)
+                            elif isinstance(f, ast.Name):
+                                names.append(f.id)
+                            else:
+                                names.append("?")
+                        elif isinstance(e, ast.Attribute):
+                            names.append(e.attr)
+                        else:
+                            names.append("?")
+                    objv = names
+    if objv is None:
+        raise ShapeNotFound("ObjectMeta.validators list")
+    return (
+        "From Statham.Model Require Import PyNum.\n"
+        "Definition validators : list (str * list str * list str) := %s.\n"
+        "Definition thresholds : list (str * bool * cmpop) := %s.\n"
+        "Definition skipped_validators : list str := %s.\n"
+        "Definition object_validators : list str := %s.\n"
+        % (cq_list(rows), cq_list(sorted(thr)), cq_list([cq_str(s) for s in skipped]),
+           cq_list([cq_str(s) for s in objv]))
+    )
+
+
+register("Gen_validators", gen_validators,
+         lambda: ("From Statham.Model Require Import PyNum.\n"
+                  "Definition validators : list (str * list str * list str) := [].\n"
+                  "Definition thresholds : list (str * bool * cmpop) := [].\n"
+                  "Definition skipped_validators : list str := [].\n"
+                  "Definition object_validators : list str := [].\n"))
+
+
+# --------------------------------------------------------------------------
+def gen_parser_tables():
+    tree = src_ast("statham/schema/parser.py")
+    pe = find_func(tree, "parse_element")
+    literal_keys, table = None, None
+    for node in ast.walk(pe):
+        if isinstance(node, ast.For):
+            seq = str_seq(node.iter)
+            if seq is not None:
+                literal_keys = seq
+            elif isinstance(node.iter, (ast.Tuple, ast.List)) and node.iter.elts and all(
+                    isinstance(e, ast.Tuple) and len(e.elts) == 2 and isinstance(e.elts[0], ast.Constant)
+                    and isinstance(e.elts[1], ast.Name) for e in node.iter.elts):
+                table = [(e.elts[0].value, e.elts[1].id) for e in node.iter.elts]
+    if literal_keys is None or table is None:
+        raise ShapeNotFound("literal keys / sub-parser table in parse_element")
+    po = find_func(tree, "_parse_object")
+    cls_keys = None
+    for node in ast.walk(po):
+        if isinstance(node, ast.For):
+            seq = str_seq(node.iter)
+            if seq is not None and len(seq) >= 5:
+                cls_keys = seq
+    if cls_keys is None:
+        raise ShapeNotFound("cls_args key list in _parse_object")
+    # how _parse_composition iterates the list-valued composition keywords
+    pc = find_func(tree, "_parse_composition")
+    comp_iter = None
+    for node in ast.walk(pc):
+        if isinstance(node, ast.For):
+            it = node.iter
+            seq = str_seq(it)
+            if seq is not None and not isinstance(it, ast.Set):
+                comp_iter = ("FixedOrder", seq)
+            elif isinstance(it, ast.Name):
+                comp_iter = ("NameIter", [it.id])
+            else:
+                src = ast.unparse(it)
+                comp_iter = ("SetIter" if "set(" in src or isinstance(it, (ast.Set, ast.BinOp)) else "Other", [src])
+    if comp_iter is None:
+        raise ShapeNotFound("composition loop in _parse_composition")
+    kind, payload = comp_iter
+    if kind == "NameIter":
+        # resolve a module-level / local tuple constant of strings
+        from statham.schema import parser as P, constants as C
+        val = getattr(P, payload[0], getattr(C, payload[0], None))
+        if isinstance(val, (tuple, list)) and all(isinstance(x, str) for x in val):
+            kind, payload = "FixedOrder", [x for x in val]
+        else:
+            kind = "Other"
+    # evaluated order in THIS interpreter (what the implementation side of the run will do)
+    from statham.schema.constants import COMPOSITION_KEYWORDS
+    if kind == "FixedOrder":
+        order_now = [k for k in payload if k != "not"]
+    else:
+        order_now = list(set(COMPOSITION_KEYWORDS) - {"not"})
+    return (
+        "Inductive comp_iter_kind := FixedOrder | SetIter | OtherIter.\n"
+        "Definition literal_keys : list str := %s.\n"
+        "Definition subparser_table : list (str * str) := %s.\n"
+        "Definition cls_args_keys : list str := %s.\n"
+        "Definition comp_iter : comp_iter_kind := %s.\n"
+        "Definition comp_order_now : list str := %s.\n"
+        % (cq_list([cq_str(k) for k in literal_keys]),
+           cq_list(["(%s, %s)" % (cq_str(a), cq_str(b)) for a, b in table]),
+           cq_list([cq_str(k) for k in cls_keys]),
+           {"FixedOrder": "FixedOrder", "SetIter": "SetIter"}.get(kind, "OtherIter"),
+           cq_list([cq_str(k) for k in order_now]))
+    )
+
+
+register("Gen_parser_tables", gen_parser_tables,
+         lambda: ("Inductive comp_iter_kind := FixedOrder | SetIter | OtherIter.\n"
+                  "Definition literal_keys : list str := [].\nDefinition subparser_table : list (str * str) := [].\n"
+                  "Definition cls_args_keys : list str := [].\nDefinition comp_iter : comp_iter_kind := OtherIter.\n"
+                  "Definition comp_order_now : list str := [].\n"))
+
+
+# --------------------------------------------------------------------------
+def _ranges(pred):
+    out, start = [], None
+    for c in range(0x110000):
+        if pred(c):
+            if start is None:
+                start = c
+        elif start is not None:
+            out.append((start, c - 1))
+            start = None
+    if start is not None:
+        out.append((start, 0x10FFFF))
+    return out
+
+
+def _cq_ranges(rs):
+    return "[" + ";".join("(%d,%d)" % r for r in rs) + "]%N"
+
+
+def gen_unicode():
+    alnum = _ranges(lambda c: chr(c).isalnum())
+    ident_start = _ranges(lambda c: chr(c).isidentifier())
+    ident_cont = _ranges(lambda c: ("a" + chr(c)).isidentifier())
+    nfkc_unstable = _ranges(lambda c: unicodedata.normalize("NFKC", chr(c)) != chr(c))
+    # checked fact: every character name is over [A-Z0-9 -] (so lower-cased labels are [a-z0-9 -])
+    bad = 0
+    for c in range(0x110000):
+        n = unicodedata.name(chr(c), None)
+        if n is not None and not all(ch.isupper() and ch.isascii() or ch.isdigit() or ch in " -" for ch in n):
+            bad += 1
+    return (
+        "Definition unidata_version : str := %s.\n"
+        "Definition alnum_ranges : list (N * N) := %s.\n"
+        "Definition ident_start_ranges : list (N * N) := %s.\n"
+        "Definition ident_continue_ranges : list (N * N) := %s.\n"
+        "Definition nfkc_unstable_ranges : list (N * N) := %s.\n"
+        "Definition names_outside_upper_digit_space_hyphen : N := %d%%N.\n"
+        % (cq_str(unicodedata.unidata_version), _cq_ranges(alnum), _cq_ranges(ident_start),
+           _cq_ranges(ident_cont), _cq_ranges(nfkc_unstable), bad)
+    )
+
+
+register("Gen_unicode", gen_unicode,
+         lambda: ("Definition unidata_version : str := [].\nDefinition alnum_ranges : list (N * N) := [].\n"
+                  "Definition ident_start_ranges : list (N * N) := [].\nDefinition ident_continue_ranges : list (N * N) := [].\n"
+                  "Definition nfkc_unstable_ranges : list (N * N) := [].\n"
+                  "Definition names_outside_upper_digit_space_hyphen : N := 1%N.\n"))
+
+
+# --------------------------------------------------------------------------
+def gen_reserved():
+    from statham.schema.elements.meta import RESERVED_PROPERTIES
+    tree = src_ast("statham/schema/parser.py")
+    fn = find_func(tree, "_parse_attribute_name")
+    kept = None
+    for node in ast.walk(fn):
+        if isinstance(node, ast.Compare) and len(node.ops) == 1 and isinstance(node.ops[0], ast.In):
+            seq = str_seq(node.comparators[0])
+            if seq is not None and all(len(x) == 1 for x in seq):
+                kept = seq
+    if kept is None:
+        raise ShapeNotFound("kept characters in _char_map")
+    return (
+        "Definition reserved : list str := %s.\n"
+        "Definition kwlist : list str := %s.\n"
+        "Definition softkwlist : list str := %s.\n"
+        "Definition kept_chars : list str := %s.\n"
+        % (cq_list([cq_str(x) for x in RESERVED_PROPERTIES]), cq_list([cq_str(x) for x in keyword.kwlist]),
+           cq_list([cq_str(x) for x in getattr(keyword, "softkwlist", [])]),
+           cq_list([cq_str(x) for x in kept]))
+    )
+
+
+register("Gen_reserved", gen_reserved,
+         lambda: ("Definition reserved : list str := [].\nDefinition kwlist : list str := [[]].\n"
+                  "Definition softkwlist : list str := [].\nDefinition kept_chars : list str := [].\n"))
